@@ -7,8 +7,10 @@ unset GOWORK
 props=$1; file=$2; expr=$3
 d=$(mktemp -d /tmp/goatmut.XXXXXX)
 rsync -a --exclude .git /repo/ $d/
+[ -n "${BASE_VARIANT:-}" ] && patch -p1 -s -d $d -i /verif/seeded/$BASE_VARIANT/patch.diff
+cp $d/$file $d/.orig
 perl -0pi -e "$expr" $d/$file
-if diff -q /repo/$file $d/$file >/dev/null; then echo "MUTATION DID NOT APPLY"; rm -rf $d; exit 3; fi
+if diff -q $d/.orig $d/$file >/dev/null; then echo "MUTATION DID NOT APPLY"; rm -rf $d; exit 3; fi
 (cd $d && go build ./... 2>&1 | head -5)
 mkdir -p $d/.verif; cp /verif/known_findings.json $d/.verif/
 for p in ${props//,/ }; do
